@@ -64,10 +64,18 @@ class R3(State):
 
 
 class R4(State):
-    """first required attribute is a union: its absence makes construction fail with an ExceptionGroup"""
+    """first required attribute is a union: its absence makes construction fail with an ExceptionGroup.
+    It can also be used in an `async with` statement of its own (a client / pool state that can be opened): that is nobody's business
+    when it is handed to a scope as state - it is state, nothing enters or exits it"""
 
     first: int | None
     v: int = 0
+
+    async def __aenter__(self):
+        raise AssertionError("a State handed over as scope state was entered as if it were a disposable")
+
+    async def __aexit__(self, exc_type, exc_val, exc_tb):
+        raise AssertionError("a State handed over as scope state was exited as if it were a disposable")
 
     def __eq__(self, other: object) -> bool:
         return type(other) is R4  # equal whatever `v` is
